@@ -159,7 +159,7 @@ class BodyInfo:
         else:
             t = self.fn.blocks[d[1]]["term"]
             e = self.call_value(d[1], t, {})
-        if depth(e) > 30:
+        if depth(e) > 150:
             e = ("unk", "deep%d" % l)
         self._static[l] = e
         return e
